@@ -5,6 +5,7 @@
 //! code on them and writes ndjson observations that TLC then validates
 //! against the TLA+ specification.
 
+mod cachecmd;
 mod j;
 mod zonecmd;
 
@@ -51,6 +52,8 @@ fn main() {
     // panics in code under test are data; keep the default hook quiet
     std::panic::set_hook(Box::new(|_| {}));
     match args[1].as_str() {
+        "cache-run" => cachecmd::cache_run(&args[2], &args[3]),
+        "cache-threads" => cachecmd::cache_threads(&args[2], &args[3]),
         "zone-resolve" => zonecmd::zone_resolve(&args[2], &args[3]),
         other => {
             eprintln!("unknown command {other}");
